@@ -38,6 +38,7 @@ import time as _time
 from fractions import Fraction
 
 from harness import common
+from harness.planners import _worlds
 
 NAME = "tetri"
 PROPS = {"C10", "C11", "C12", "C14"}
@@ -146,7 +147,7 @@ def build_world(spec: dict) -> World:
                 R["ExecutionStrategy"](
                     resources=Resources(resource_vector={Resource(name=n, _id="any"): q for n, q in s["req"]}),
                     batch_size=s.get("batch", 1),
-                    runtime=US(s["runtime"]),
+                    runtime=_worlds.et(R, s["runtime"], s.get("rt_ms")),  # mixed-unit flavour: some runtimes in ms
                 )
                 for s in strats
             ]
@@ -166,14 +167,12 @@ def build_world(spec: dict) -> World:
                 name=t["name"],
                 task_graph=g["name"],
                 job=R["Job"](name=t["name"], profile=profile),
-                deadline=US(t["deadline"]),
+                deadline=_worlds.et(R, t["deadline"], t.get("dl_ms")),
                 timestamp=t.get("ts", 0),
             )
             tasks.append(task)
-        children = {task: [] for task in tasks}
-        for a, b in g["edges"]:
-            children[tasks[a]].append(tasks[b])
-        graphs[g["name"]] = R["TaskGraph"](name=g["name"], tasks=children)
+        # node insertion order of the real graph = declaration order g["decl"] (default: index order)
+        graphs[g["name"]] = R["TaskGraph"](name=g["name"], tasks=_worlds.children_mapping(g, tasks))
         for t, task in zip(g["tasks"], tasks):
             w.tasks[task.unique_name] = task
             w.task_list.append((t, task))
@@ -182,9 +181,9 @@ def build_world(spec: dict) -> World:
         st = t["state"]
         if st == "VIRTUAL":
             if t.get("release") is not None:
-                task._release_time = US(t["release"])  # estimated release of a not yet released task
+                task._release_time = _worlds.et(R, t["release"], t.get("rel_ms"))  # estimated release of a not yet released task
             continue
-        task.release(US(t["release"]))
+        task.release(_worlds.et(R, t["release"], t.get("rel_ms")))
         if st == "RELEASED":
             continue
         prev = t["prev"]
@@ -230,6 +229,9 @@ def build_world(spec: dict) -> World:
         w.scheduler = R["TetriSchedGurobiScheduler"](release_taskgraphs=f["release_taskgraphs"], **kw)
     else:
         w.scheduler = R["TetriSchedCPLEXScheduler"](batching=bool(spec.get("batching", False)), **kw)
+    if spec.get("warmup"):
+        # warm-scheduler flavour: the same scheduler object has already been invoked once, on an unrelated world
+        _worlds.run_warmup(R, w.scheduler, spec["warmup"])
     return w
 
 
@@ -1101,7 +1103,9 @@ def run_case(spec: dict):
 
 
 def canonical_case(spec: dict) -> dict:
-    return {k: spec[k] for k in ("backend", "now", "pools", "graphs", "flags")}
+    c = {k: spec[k] for k in ("backend", "now", "pools", "graphs", "flags")}
+    c.update({k: spec[k] for k in ("scale", "warmup") if spec.get(k)})  # flavours (harness/planners/_worlds.py)
+    return c
 
 
 def second_pass(recs_cases, replies):
@@ -1435,7 +1439,9 @@ def addable_cells(w: World, rec: dict, booking: str = "true", count_all_parents:
                     if lb is not None and slot < lb and w.backend == "gurobi":
                         continue
                     fits = True
-                    for tau in range(slot, max(slot + rt, slot + 1)):
+                    # the load on [slot, slot + rt) changes only where an interval starts: checking `slot` and every
+                    # interval start inside the window is the check at every instant (1000x-scale worlds)
+                    for tau in sorted({slot} | {s0 for _t2, wid2, s0, _e0, _s in iv if wid2 == wk.id and slot < s0 < slot + rt}):
                         if tau >= slot + rt:
                             break
                         use = dict(req)
@@ -1649,18 +1655,127 @@ def counts_for(prop: str, tier: str) -> int:
 KIND = {"C10": "mix", "C11": "dag", "C12": "deadline", "C14": "c14"}
 
 
+def gen_chain_b(rng, backend: str) -> dict:
+    """Chain-B world (see `_worlds.gen_chain_b`): retracting mode, RUNNING X -> SCHEDULED B -> VIRTUAL C declared in
+    a non-topological order, `runtime(B) <= lookahead < remaining(X)`: nothing of the chain is schedulable; in
+    the control worlds (lookahead 30) everything is re-offered."""
+    b = _worlds.gen_chain_b(rng, now_choices=(0, 2, 5), extra_graph=True)
+    flags = {
+        "enforce_deadlines": rng.random() < 0.8,
+        "retract": True,
+        "release_taskgraphs": backend == "gurobi" and rng.random() < 0.15,
+        "lookahead": b["lookahead"],
+        "disc": rng.choice([1, 1, 2]),
+        "plan_ahead": -1,
+    }
+    return {"backend": backend, "now": b["now"], "pools": b["pools"], "graphs": b["graphs"], "flags": flags,
+            "uuid_seed": rng.randint(0, 10**9), "flavour": "chain_b" + ("_control" if b["control"] else "")}
+
+
+def mixed_corpus() -> list[dict]:
+    """Hand-written mixed-unit worlds (1000x scale, Gurobi formulation): the parent's only compatible strategy is
+    the slow one, written in ms next to a fast one in us (raw integers 5 < 2000); the child is offered by
+    lookahead and has to wait for `parent start + slowest runtime + 1`."""
+    def st(rt, cpu, ms=False):
+        d = {"batch": 1, "runtime": rt, "req": [["CPU", cpu]]}
+        if ms:
+            d["rt_ms"] = True
+        return d
+
+    flags = {"enforce_deadlines": True, "retract": False, "release_taskgraphs": False, "lookahead": 20000, "disc": 1000, "plan_ahead": 12000}
+    return [
+        {
+            "backend": "gurobi",
+            "now": 3000,
+            "scale": 1000,
+            "pools": [{"name": "P0", "workers": [{"name": "W0", "res": [["CPU", 2]]}]}],
+            "graphs": [
+                {
+                    "name": "G0",
+                    "tasks": [
+                        {"name": "A", "ts": 0, "state": "RELEASED", "strats": [st(2000, 3), st(5000, 1, ms=True)], "deadline": 16000, "dl_ms": True, "release": 2000, "rel_ms": True},
+                        {"name": "B", "ts": 0, "state": "VIRTUAL", "strats": [st(3000, 1)], "deadline": 16000, "release": None},
+                    ],
+                    "edges": [[0, 1]],
+                    "decl": [1, 0],
+                }
+            ],
+            "flags": dict(flags),
+            "uuid_seed": 21,
+        }
+    ]
+
+
+def warm_corpus() -> list[dict]:
+    """Hand-written warm-scheduler worlds (both back-ends, derived plan-ahead): the scheduler object was invoked at
+    t=0 on an unrelated world whose greatest deadline is 4; the judged call at t=1 has to plan B and C (runtime 5,
+    deadline 12, one CPU) one after the other, which needs the slots up to 6 of ITS horizon 1..13."""
+    out = []
+    for backend in ("gurobi", "cplex"):
+        out.append(
+            {
+                "backend": backend,
+                "now": 1,
+                "pools": [{"name": "P0", "workers": [{"name": "W0", "res": [["CPU", 1]]}]}],
+                "graphs": [
+                    {"name": f"G{i}", "edges": [], "tasks": [
+                        {"name": n, "ts": 0, "state": "RELEASED", "strats": [{"batch": 1, "runtime": 5, "req": [["CPU", 1]]}], "deadline": 12, "release": 1}]}
+                    for i, n in enumerate(("B", "C"))
+                ],
+                "flags": {"enforce_deadlines": True, "retract": False, "release_taskgraphs": False, "lookahead": 0, "disc": 1, "plan_ahead": -1},
+                "uuid_seed": 31,
+                "warmup": {"now": 0, "cpu": 1, "tasks": [{"runtime": 4, "deadline": 4}]},
+            }
+        )
+    return out
+
+
+P_DECL, P_MIXED, P_WARM = 0.4, 0.25, 0.3
+
+
+def _count_flavours(chk, name, spec):
+    if spec.get("scale"):
+        chk.count(f"{name}:flavour=1000x-scale" + (",mixed-units-in-one-profile" if _worlds.has_mixed_profile(spec) else ""))
+    if any(g.get("decl") for g in spec["graphs"]):
+        chk.count(f"{name}:flavour=declaration-order" + ("" if all(_worlds.is_topological_decl(g) for g in spec["graphs"]) else ",non-topological"))
+    if spec.get("flavour"):
+        chk.count(f"{name}:flavour={spec['flavour']}")
+    if spec.get("warmup"):
+        chk.count(f"{name}:flavour=warm-scheduler")
+
+
 def gen_specs(prop: str, rng, tier: str, widened=False) -> list[dict]:
     n = counts_for(prop, tier)
     if widened:
         n *= 2
     r = rng.sub(f"tetri/{prop}/{'w' if widened else 'n'}")
+    fr = rng.sub(f"tetri/{prop}/{'w' if widened else 'n'}/flavours")  # own stream: the base worlds stay what they were
     specs = [s for s in corpus(KIND[prop]) if not (prop == "C11" and s["backend"] != "gurobi")]
+    n_corpus = len(specs)
     kinds = [KIND[prop]] if not widened else ["mix", "dag", "deadline", "c14"]
     i = 0
     while len(specs) < n:
         backend = "gurobi" if prop == "C11" or i % 2 == 0 else "cplex"
         specs.append(gen_world(r, r.choice(kinds), backend))
         i += 1
+    for spec in specs[n_corpus:]:
+        # flavours (harness/planners/_worlds.py): non-topological declaration order; 1000x scale with mixed units
+        if fr.random() < P_DECL:
+            _worlds.shuffle_decl(spec, fr)
+        if fr.random() < P_MIXED:
+            _worlds.scale_mixed(spec, fr)
+    wr = rng.sub(f"tetri/{prop}/{'w' if widened else 'n'}/warmup")
+    for spec in specs[n_corpus:]:
+        if wr.random() < P_WARM:
+            _worlds.gen_warmup(spec, wr)
+    specs[n_corpus:n_corpus] = mixed_corpus() + [s for s in warm_corpus() if not (prop == "C11" and s["backend"] != "gurobi")]
+    if prop in ("C10", "C11"):
+        # chain-B worlds in addition (10 %)
+        for j in range(max(4, n // 10)):
+            spec = gen_chain_b(fr, "gurobi" if prop == "C11" or j % 2 == 0 else "cplex")
+            if fr.random() < 0.3:
+                _worlds.scale_mixed(spec, fr)
+            specs.append(spec)
     return specs
 
 
@@ -1744,6 +1859,7 @@ def run(prop: str, chk, rng, tier: str) -> list[str]:
         chk.count(f"tetri:placed={min(placed, 5)}")
         chk.count(f"tetri:disc={f['disc']}")
         chk.count(f"tetri:retract={f['retract']},release_tg={f['release_taskgraphs']}")
+        _count_flavours(chk, "tetri", spec)
         chk.count(f"tetri:{be}:" + ("raised" if rec["err"] else "no-model" if rec["model"] is None else "solved" if rec["solved"] else "no-solution"))
         if reply is not None:
             chk.traces_validated += 1
@@ -1761,10 +1877,13 @@ def run(prop: str, chk, rng, tier: str) -> list[str]:
                     )
         elif rec["err"] is None and rec.get("offered") is None:
             disagreements.append("[tetri] schedule() did not ask the workload for schedulable tasks")
-        if not reachable_state(w, rec):
+        if not reachable_state(w, rec) and prop != "C11":
             chk.count("tetri:unreachable-retract-state (oracles skipped)")
             release_model(rec)
             continue
+        # C11 is judged in every state: precedence between a placed child and its parents does not depend on
+        # whether the SCHEDULED tasks the retracting frontier left out could have been left out in a run (a child
+        # is only offered together with its SCHEDULED parents, so nothing here can fire on such a state alone)
         _run_oracles(prop, chk, spec, w, rec, reply, reply2)
         release_model(rec)
     chk.extra.setdefault("planner_wall_s", {})[f"tetri/{prop}"] = round(_time.time() - t0, 1)
@@ -1786,7 +1905,7 @@ def search(prop: str, chk, rng, tier: str) -> None:
         except Exception:
             continue
         try:
-            if reachable_state(w, rec):
+            if reachable_state(w, rec) or prop == "C11":
                 _run_oracles(prop, chk, spec, w, rec, None, None, found_input=True)
         finally:
             release_model(rec)
